@@ -136,7 +136,15 @@ var (
 	attrVals  = []string{"x", "y", "z", "", "p;q", "1", "ü", "a b"}
 	resKeys   = []string{"service.name", "res.a", "res_a", "res-a", "host"}
 	scopeNms  = []string{"scope.a", "scope/b", "sc", "go.opentelemetry.io/contrib/x"}
-	nsChoices = []string{"ns", "my_ns", "ns_", "n.s", "Ns9", "n-s", "total", "seconds"}
+	scopeVers = []string{"", "v1.2.3", "0.1"}
+	// reserved label names of the exporter, keys that sanitise to them,
+	// ordinary keys, keys that collide with each other after sanitisation
+	scopeAttrKeys = []string{
+		"otel_scope_name", "otel_scope_version", "otel.scope.name", "otel-scope-name", "otel.scope.version", "otel/scope/version",
+		"scope.attr", "sa", "team", "s.k", "s_k", "s-k",
+	}
+	scopeAttrVals = []string{"x", "y", "", "p;q", "sc", "scope.a", "scope/b", "v1.2.3", "0.1", "shadow"}
+	nsChoices     = []string{"ns", "my_ns", "ns_", "n.s", "Ns9", "n-s", "total", "seconds"}
 	// values around the default histogram boundaries 0,5,10,25,...,10000
 	histInts = []int{0, 1, 5, 6, 10, 25, 26, 75, 100, 250, 1000, 10000, 10001}
 	histF8   = []int{0, 1, 39, 40, 41, 80, 199, 200, 600, 800, 2000, 7999, 8000, 80000, 80001}
@@ -384,6 +392,22 @@ func (in Inst) ntuples() int {
 	return n
 }
 
+func sameScopeData(a, b Scope) bool {
+	if a.Name != b.Name || a.Version != b.Version || len(a.Attrs) != len(b.Attrs) {
+		return false
+	}
+	m := map[string]string{}
+	for _, x := range a.Attrs {
+		m[x.K] = x.V
+	}
+	for _, x := range b.Attrs {
+		if v, ok := m[x.K]; !ok || v != x.V {
+			return false
+		}
+	}
+	return true
+}
+
 func sameStringSet(a, b []string) bool {
 	if len(a) != len(b) {
 		return false
@@ -425,19 +449,30 @@ func genCase(conc bool) func(t *rapid.T) Case {
 		if c.ResFilter != "" {
 			c.ResFilterKeys = rapid.SliceOfNDistinct(rapid.SampledFrom(append([]string{"nope"}, resKeys...)), 0, 4, rapid.ID[string]).Draw(t, "rfkeys")
 		}
-		ns := rapid.IntRange(1, 2).Draw(t, "nscopes")
-		names := rapid.SliceOfNDistinct(rapid.SampledFrom(scopeNms), ns, ns, rapid.ID[string]).Draw(t, "scopenames")
-		// scope attributes: the same key on every scope of the case (scopes
-		// with different attribute keys give otel_scope_info series with
-		// different label names, which nothing in the statement speaks about).
-		sak := ""
-		if rapid.IntRange(0, 3).Draw(t, "scopeattr") == 0 {
-			sak = rapid.SampledFrom([]string{"scope.attr", "sa"}).Draw(t, "sak")
-		}
-		for _, n := range names {
-			s := Scope{Name: n, Version: rapid.SampledFrom([]string{"", "v1.2.3", "0.1"}).Draw(t, "scopever")}
-			if sak != "" {
-				s.Attrs = []Attr{{K: sak, V: rapid.SampledFrom(attrVals).Draw(t, "sav")}}
+		// 1..3 scopes; names may repeat (then versions / attributes differ).
+		// Scope attributes come from a pool with the exporter's own reserved
+		// label names (exact and keys that sanitise to them), ordinary keys
+		// and keys that collide with each other after sanitisation; values
+		// include other scopes' names and versions.
+		ns := rapid.IntRange(1, 3).Draw(t, "nscopes")
+		for i := 0; i < ns; i++ {
+			s := Scope{}
+			if i > 0 && rapid.IntRange(0, 2).Draw(t, "samename") == 1 {
+				s.Name = c.Scopes[i-1].Name
+			} else {
+				s.Name = rapid.SampledFrom(scopeNms).Draw(t, "scopename")
+			}
+			s.Version = rapid.SampledFrom(scopeVers).Draw(t, "scopever")
+			if rapid.IntRange(0, 9).Draw(t, "scopeattrs") < 6 {
+				keys := rapid.SliceOfNDistinct(rapid.SampledFrom(scopeAttrKeys), 1, 3, rapid.ID[string]).Draw(t, "sakeys")
+				for _, k := range keys {
+					s.Attrs = append(s.Attrs, Attr{K: k, V: rapid.SampledFrom(scopeAttrVals).Draw(t, "sav")})
+				}
+			}
+			for _, prev := range c.Scopes {
+				if sameScopeData(prev, s) {
+					s.Version = "dup" + string(rune('0'+i)) // keep the identities distinct
+				}
 			}
 			c.Scopes = append(c.Scopes, s)
 		}
